@@ -33,6 +33,9 @@ type Opts struct {
 	DiscardEnvFiles        bool     `json:"discard_env_files,omitempty"`
 	ConvertWindowsPaths    bool     `json:"convert_windows_paths,omitempty"`
 	Profiles               []string `json:"profiles,omitempty"`
+	// RemoteLoader registers a remote ResourceLoader that accepts nothing (its presence alone
+	// switches the loader to the code paths used when remote loaders are configured).
+	RemoteLoader bool `json:"remote_loader,omitempty"`
 	// Name "" => project name "verif" set imperatively; "-" => not set at all.
 	Name string `json:"name,omitempty"`
 }
@@ -55,6 +58,7 @@ func (o Opts) String() string {
 	add(o.SkipResolveEnvironment, "SkipResolveEnvironment")
 	add(o.SkipDefaultValues, "SkipDefaultValues")
 	add(o.DiscardEnvFiles, "DiscardEnvFiles")
+	add(o.RemoteLoader, "RemoteLoader")
 	if len(p) == 0 {
 		return "default"
 	}
@@ -126,6 +130,9 @@ func (o Opts) OptionFuncs() []func(*loader.Options) {
 		lo.SkipDefaultValues = o.SkipDefaultValues
 		lo.ConvertWindowsPaths = o.ConvertWindowsPaths
 		lo.Profiles = o.Profiles
+		if o.RemoteLoader {
+			lo.ResourceLoaders = append(lo.ResourceLoaders, idleRemoteLoader{})
+		}
 		if o.DiscardEnvFiles {
 			loader.WithDiscardEnvFiles(lo)
 		}
@@ -202,3 +209,12 @@ func PanicViolation(s *core.Shard, pi *core.PanicInfo, c *Case, extra map[string
 	}
 	s.Violation(attrs, fmt.Sprintf("panic in %s (%s): %s", pi.Site, pi.Class, pi.Value), map[string]any{"case.json": c, "stack.txt": pi.Stack})
 }
+
+// idleRemoteLoader is a remote resource loader for a scheme no generated input uses.
+type idleRemoteLoader struct{}
+
+func (idleRemoteLoader) Accept(p string) bool { return strings.HasPrefix(p, "verif-remote://") }
+func (idleRemoteLoader) Load(_ context.Context, p string) (string, error) {
+	return "", fmt.Errorf("verif-remote: nothing to load for %s", p)
+}
+func (idleRemoteLoader) Dir(p string) string { return p }
